@@ -48,48 +48,75 @@ def sig_c07(v):
     st, d = v.get("step", {}), v.get("detail", {})
     kind = st.get("kind", "?")
     blame = sorted(d.get("blame", []))
-    if blame:
+    if blame and d.get("explained"):      # the observed effects are exactly those of the named deviation
         return "C07/%s/%s" % (kind, "+".join(blame))
     what = "disclosed" if d.get("disclosed") else "changed-outside"
     return "C07/%s/unexplained/%s" % (kind, what)
 
 
-def run_c07(ctx):
-    quick = ctx.quick()
-    ctx.build(name="vh-files")
-    cfg = "MC_Files_C07.cfg" if quick else "MC_Files_C07_full.cfg"
-    neg = []
-    th = threading.Thread(target=_must_fail, args=(ctx, "MC_Files", "MC_Files_C07_pinned.cfg", "Contained07", neg))
-    th.start()
-    r = ctx.model_check("MC_Files", cfg, timeout=3000, coverage=False, heap="8g")
-    world = printed_json(r, "W")
-    reqs = printed_json(r, "B")
-    if len(world) != 1 or not reqs:
-        raise Fatal("TLC emitted no C07 requests:\n%s" % r.out[-2000:])
-    reqs.sort(key=lambda q: json.dumps(q, sort_keys=True))
-    if quick:
-        # every request of the core set that can leave the trees on the pinned tree is kept; of the rest a seeded 50 %
-        keep = []
-        for i, q in enumerate(reqs):
-            top = q["kind"] in ("rename", "upfolder", "acct") or q.get("path") == [-1]
-            if top or (i * 7919 + ctx.seed * 104729) % 10 < 5:
-                keep.append(q)
-        reqs = keep
+_TOKENS = [b"..", b".", b"a", b"x", b"/", b"", b"b.txt", b"\x8a", b"\x00", b"abs", b"../", b"/..", b"a/", b"./", b"p", b".incomplete", b" "]
+
+
+def _random_requests(seed, n):
+    """Seeded random requests (thorough tier): components glued from 1..3 tokens of a hostile palette, in random
+    positions of random request kinds.  They are judged like the TLC-generated ones (Trace_Files applies Files!Do)."""
+    import random
+    rnd = random.Random(seed * 7919 + 17)
+
+    def comp():
+        return list(b"".join(rnd.choice(_TOKENS) for _ in range(rnd.randint(1, 3))))
+
+    def path():
+        k = rnd.choice([0, 0, 1, 1, 2, 3])
+        if k == 0:
+            return [-1]
+        cs = [comp() for _ in range(k)]
+        b = [0, len(cs)]
+        for c in cs:
+            b += [0, 0, len(c)] + c
+        return b
+    out = []
+    kinds = ["info", "newfolder", "delete", "download", "upload", "setcomment", "rename", "move", "alias", "list", "dlfolder"]
+    for _ in range(n):
+        k = rnd.choice(kinds)
+        q = {"kind": k, "occ": rnd.randint(0, 1), "path": path(), "name": comp(), "newname": [-1], "newpath": [-1], "comment": [-1]}
+        if k == "list":
+            q["name"] = [-1]
+            q["occ"] = 1
+        if k in ("info", "download", "dlfolder"):
+            q["occ"] = 1
+        if k == "rename":
+            q["newname"] = comp()
+            if rnd.random() < 0.6:
+                q["name"] = rnd.choice([[120], [98, 46, 116, 120, 116], [97]])
+        if k == "setcomment":
+            q["comment"] = [104, 105]
+        if k in ("move", "alias"):
+            q["newpath"] = path()
+            if rnd.random() < 0.6:
+                q["name"] = rnd.choice([[120], [98, 46, 116, 120, 116], [97]])
+        out.append(q)
+    return out
+
+
+def _judge_c07(ctx, world, reqs, neg_thread=None, neg=None):
     sp = ctx.path("c07-scripts.ndjson")
     _write(sp, world + reqs)
     lp = ctx.path("c07-log.ndjson")
     ctx.harness(["c07", "-scripts", sp, "-out", lp, "-par", "1024"], timeout=3000)
-    th.join()
-    if not neg or neg[0][1] != "Contained07":
-        raise Fatal("the deviation model MC_Files_C07_pinned.cfg did not violate Contained07 (vacuous invariant?): %s" % (neg,))
-    ctx.notes["negative_model_checks"] = [{"cfg": n[0], "violated": n[1], "wall_s": n[4]} for n in neg]
+    if neg_thread is not None:
+        neg_thread.join()
+        if not neg or neg[0][1] != "Contained07":
+            raise Fatal("the deviation model MC_Files_C07_pinned.cfg did not violate Contained07 (vacuous invariant?): %s" % (neg,))
+        ctx.notes["negative_model_checks"] = [{"cfg": n[0], "violated": n[1], "wall_s": n[4]} for n in neg]
     viol, drift = ctx.validate("Trace_Files", "Trace_Files.cfg", lp, timeout=3000, heap="8g")
     ctx.cov["traces_validated_against_impl"] += len(reqs)
     kinds = {}
     for q in reqs:
         kinds[q["kind"]] = kinds.get(q["kind"], 0) + 1
     ctx.notes["requests_by_kind"] = kinds
-    ctx.sample({"request": {k: (_name(v) if isinstance(v, list) else v) for k, v in reqs[len(reqs) // 2].items() if k not in ("item", "ops")}})
+    ctx.sample({"request": {k: (_name(v) if isinstance(v, list) else v) for k, v in reqs[len(reqs) // 2].items()
+                            if k in ("kind", "occ", "path", "name", "newname", "newpath", "comment")}})
     for v in viol:
         if v.get("prop") != "C07":
             continue
@@ -101,6 +128,33 @@ def run_c07(ctx):
         st = d.get("step", {})
         ctx.add_drift({"cls": d.get("cls"), "kind": st.get("kind"), "name": _name(st.get("name")), "newname": _name(st.get("newname")),
                        "path": st.get("path") if len(str(st.get("path"))) < 120 else "long", "detail": json.dumps(d.get("detail"))[:400]})
+
+
+def run_c07(ctx):
+    quick = ctx.quick()
+    ctx.build(name="vh-files")
+    cfg = "MC_Files_C07.cfg" if quick else "MC_Files_C07_full.cfg"
+    neg = []
+    th = threading.Thread(target=_must_fail, args=(ctx, "MC_Files", "MC_Files_C07_pinned.cfg", "Contained07", neg))
+    th.start()
+    # (one worker: every transition leaves the single initial state, more workers only contend - measured 10 x slower)
+    r = ctx.model_check("MC_Files", cfg, timeout=3000, coverage=False, heap="8g", workers=1)
+    world = printed_json(r, "W")
+    reqs = printed_json(r, "B")
+    if len(world) != 1 or not reqs:
+        raise Fatal("TLC emitted no C07 requests:\n%s" % r.out[-2000:])
+    reqs.sort(key=lambda q: json.dumps(q, sort_keys=True))
+    if quick:
+        # every request of the core set that can leave the trees on the pinned tree is kept; of the rest a seeded 80 %
+        keep = []
+        for i, q in enumerate(reqs):
+            top = q["kind"] in ("rename", "upfolder", "acct") or q.get("path") == [-1]
+            if top or (i * 7919 + ctx.seed * 104729) % 10 < 8:
+                keep.append(q)
+        reqs = keep
+    if not quick:
+        reqs += _random_requests(ctx.seed, 4000)
+    _judge_c07(ctx, world, reqs, th, neg)
     ctx.assumptions += [
         "one request per sandbox, from a logged-in client holding every privilege; the sandbox is outer/l1/l2/l3/W/{root,config/Users,canaries} and the whole of `outer` is snapshotted before and after (names, kinds, sizes, hashes, link targets)",
         "the adversarial alphabet is the 11 symbols of DESIGN C07 (+ length-prefix mismatches); paths of up to 3 components; each mutating request runs in two sandbox variants (landing places free / occupied)",
@@ -125,42 +179,7 @@ def sig_c11(v):
     return "C11/%s/%s" % (cls, st.get("kind", "world"))
 
 
-def run_c11(ctx):
-    quick = ctx.quick()
-    ctx.build(name="vh-files")
-    neg = []
-    th = threading.Thread(target=_must_fail, args=(ctx, "MC_Files", "MC_Files_C11_pinned.cfg", "ListedIsAddressable", neg))
-    th.start()
-    gen = {}
-
-    def _gen():
-        try:
-            out = []
-            for b in range(1 if quick else 8):
-                _, items = ctx.generate("MC_Files", "Gen_Files_C11.cfg" if quick else "Gen_Files_C11_long.cfg", "gen%d.ndjson" % b,
-                                        simulate=24 if quick else 60, depth=5 if quick else 8, extra_seed=1100 + b, timeout=1200)
-                out += items[::9] if quick else items[::5]
-            gen["items"] = out
-        except Exception as e:
-            gen["err"] = e
-    tg = threading.Thread(target=_gen)
-    tg.start()
-    r = ctx.model_check("MC_Files", "MC_Files_C11.cfg", timeout=1200, coverage=False)
-    scripts = printed_json(r, "B")
-    scripts.sort(key=lambda q: json.dumps(q, sort_keys=True))
-    if quick:   # a seeded third of the one-step behaviours (all of them in the thorough tier)
-        scripts = [q for i, q in enumerate(scripts) if (i + ctx.seed) % 3 == 0]
-    if not quick:
-        ctx.model_check("MC_Files", "MC_Files_C11_deep.cfg", timeout=3000, coverage=False, heap="8g")
-    nscr1 = len(scripts)
-    tg.join()
-    if "err" in gen:
-        raise gen["err"]
-    scripts += gen["items"]
-    th.join()
-    if not neg or neg[0][1] not in ("ListedIsAddressable", "ListShowsExactly"):
-        raise Fatal("the deviation model MC_Files_C11_pinned.cfg did not violate the listing invariants (vacuous?): %s" % (neg,))
-    ctx.notes["negative_model_checks"] = [{"cfg": n[0], "violated": n[1], "wall_s": n[4]} for n in neg]
+def _judge_c11(ctx, scripts, nscr1):
     sp = ctx.path("c11-scripts.ndjson")
     _write(sp, scripts)
     lp = ctx.path("c11-log.ndjson")
@@ -187,6 +206,45 @@ def run_c11(ctx):
         st = d.get("step", {})
         ctx.add_drift({"cls": d.get("cls"), "run": d.get("run"), "i": st.get("i"), "kind": st.get("kind"), "name": _name(st.get("name")),
                        "newname": _name(st.get("newname")), "detail": json.dumps(d.get("detail"))[:500]})
+
+
+def run_c11(ctx):
+    quick = ctx.quick()
+    ctx.build(name="vh-files")
+    neg = []
+    th = threading.Thread(target=_must_fail, args=(ctx, "MC_Files", "MC_Files_C11_pinned.cfg", "ListedIsAddressable", neg))
+    th.start()
+    gen = {}
+
+    def _gen():
+        try:
+            out = []
+            for b in range(1 if quick else 8):
+                _, items = ctx.generate("MC_Files", "Gen_Files_C11.cfg" if quick else "Gen_Files_C11_long.cfg", "gen%d.ndjson" % b,
+                                        simulate=24 if quick else 60, depth=5 if quick else 8, extra_seed=1100 + b, timeout=1200)
+                out += items[::9] if quick else items[::23]
+            gen["items"] = out
+        except Exception as e:
+            gen["err"] = e
+    tg = threading.Thread(target=_gen)
+    tg.start()
+    r = ctx.model_check("MC_Files", "MC_Files_C11.cfg", timeout=1200, coverage=False)
+    scripts = printed_json(r, "B")
+    scripts.sort(key=lambda q: json.dumps(q, sort_keys=True))
+    if quick:   # a seeded half of the one-step behaviours (all of them in the thorough tier)
+        scripts = [q for i, q in enumerate(scripts) if (i + ctx.seed) % 2 == 0]
+    if not quick:
+        ctx.model_check("MC_Files", "MC_Files_C11_deep.cfg", timeout=3000, coverage=False, heap="8g")
+    nscr1 = len(scripts)
+    tg.join()
+    if "err" in gen:
+        raise gen["err"]
+    scripts += gen["items"]
+    th.join()
+    if not neg or neg[0][1] not in ("ListedIsAddressable", "ListShowsExactly"):
+        raise Fatal("the deviation model MC_Files_C11_pinned.cfg did not violate the listing invariants (vacuous?): %s" % (neg,))
+    ctx.notes["negative_model_checks"] = [{"cfg": n[0], "violated": n[1], "wall_s": n[4]} for n in neg]
+    _judge_c11(ctx, scripts, nscr1)
     ctx.assumptions += [
         "one client holding every file privilege drives the sequence; after every step every real folder is listed, every listed entry is asked for get-info and (non-folders) a download reply by exactly its listed bytes",
         "names come from {a, b.txt, c, .hid, @x, x.incomplete.y, a Mac Roman name}; ignore configurations: default (^\\. ^@), none, one custom pattern (\\.txt$)",
@@ -198,3 +256,16 @@ def run(ctx, prop):
     if prop == "C07":
         return run_c07(ctx)
     return run_c11(ctx)
+
+
+def replay(ctx, prop, rp):
+    """vcheck replay <file>: re-execute the recorded request / script on the current tree and judge it again."""
+    ctx.build(name="vh-files")
+    r = rp.get("replay") or {}
+    if prop == "C07":
+        keep = ("kind", "occ", "path", "name", "newname", "newpath", "comment", "item", "ops")
+        _judge_c07(ctx, [r["world"]], [{k: v for k, v in r["request"].items() if k in keep}])
+    else:
+        _judge_c11(ctx, [r["script"]], 0)
+    ctx.cov["states"] = max(ctx.cov["states"], 1)
+    ctx.cov["transitions"] = max(ctx.cov["transitions"], 1)
